@@ -596,6 +596,50 @@ func (x *EvalCtx) callExpr(n *ECall) Val {
 	case "sameNumber":
 		u, f := x.eval(n.Args[0]), x.eval(n.Args[1])
 		return Val{T: boolT, S: eq(app("to_real", u.S), app("fp.to_real", f.S))}
+	case "allNonNil", "allValid":
+		xs := x.eval(n.Args[0])
+		if kindOf(xs.T) != kSlice || xs.Sl == nil {
+			return x.fail("%s: not a slice", n.Fn)
+		}
+		et := xs.T.Underlying().(*types.Slice).Elem()
+		x.bound++
+		k := fmt.Sprintf("k!q%d", x.s.c.fresh+x.bound)
+		x.s.c.fresh++
+		el := x.s.pureLoad(&Addr{Space: "elem", Ref: xs.Sl.Base, Idx: k, Elem: et, T: et})
+		var body string
+		switch {
+		case n.Fn == "allValid" && kindOf(et) == kIface:
+			body = app("validI", el.S)
+		case kindOf(et) == kIface:
+			body = not(eq(el.S, "nilI"))
+		case kindOf(et) == kPtr:
+			body = not(eq(el.S, "0"))
+		default:
+			return x.fail("%s: unsupported element type", n.Fn)
+		}
+		hi := app("+", xs.Sl.Off, xs.Sl.Len)
+		return Val{T: boolT, S: fmt.Sprintf("(forall ((%s Int)) (! (=> (and (<= %s %s) (< %s %s)) %s) :pattern (%s)))", k, xs.Sl.Off, k, k, hi, body, el.S)}
+	case "valid":
+		a := x.eval(n.Args[0])
+		return Val{T: boolT, S: app("validI", a.S)}
+	case "urlStr":
+		a := x.eval(n.Args[0])
+		return Val{T: strT, S: app("urlStr", a.S)}
+	case "implements":
+		a := x.eval(n.Args[0])
+		tn, ok := n.Args[1].(*EStr)
+		if !ok {
+			return x.fail("implements(x, \"pkg.Iface\") expects a string literal")
+		}
+		t, _ := x.specTypeAny(tn.V)
+		if t == nil {
+			return x.fail("implements: unknown interface %s", tn.V)
+		}
+		it, ok := t.Underlying().(*types.Interface)
+		if !ok {
+			return x.fail("implements: %s is not an interface", tn.V)
+		}
+		return Val{T: boolT, S: x.s.implementsCond(a, it)}
 	case "itoa":
 		a := x.eval(n.Args[0])
 		x.s.c.declare("itoa", "(declare-fun itoa (Int) Str)")
